@@ -13,6 +13,7 @@ import (
 	"pgregory.net/rapid"
 
 	alltypes "github.com/jackalLabs/canine-chain/v4/types"
+	"github.com/jackalLabs/canine-chain/v4/x/rns"
 	rnstypes "github.com/jackalLabs/canine-chain/v4/x/rns/types"
 
 	"verifharness/chain"
@@ -464,7 +465,7 @@ func TestC08(t *testing.T) {
 
 func TestC09(t *testing.T) {
 	rec := ev.For("C09")
-	rec.Describe("same stateful generator as C08 with bid/cancel/accept weighted up (repeated bids by one account on one name with different amounts and denominations, bids on unregistered names); after every message: rns module balance (all denoms) == sum of open bids read from the store; cancel refunds exactly what the bidder escrowed for the slot and had not got back; accept pays the owner exactly that; other messages leave the module balance unchanged. Non-trivial = a second bid hit an existing (bidder,name) slot; distinct = distinct traces.",
+	rec.Describe("same stateful generator as C08 with bid/cancel/accept weighted up (repeated bids by one account on one name with different amounts and denominations, bids on unregistered names); after every message: rns module balance (all denoms) == sum of open bids read from the store; cancel refunds exactly what the bidder escrowed for the slot and had not got back; accept pays the owner exactly that; other messages leave the module balance unchanged; at the end of every history the name-service genesis is exported and imported into a fresh store, where the open bids must still add up to the module balance. Non-trivial = a second bid hit an existing (bidder,name) slot; distinct = distinct traces.",
 		"bid prices are read back from the Bids store; escrow per slot is tracked from observed balance changes of the bidder")
 	c := chain.New(rnsGenesis())
 	defer c.Close()
@@ -499,6 +500,35 @@ func TestC09(t *testing.T) {
 	search(t, rec, "history", budget(2500, 480000), 35, func(rt *rapid.T) {
 		w := rnsMachine(rt, c, rnsWeights{bidHeavy: true}, c09Oracle, rec)
 		rec.Count("histories")
+		// "always" includes a restart from an exported genesis: the bank module carries the module account's balance
+		// over unchanged, so the bids that come back from the name service's own export/import must still add up to it.
+		{
+			gs := rns.ExportGenesis(w.f.Ctx, c.App.RnsKeeper)
+			fresh := c.Fork(w.f.Height(), w.f.Time())
+			rns.InitGenesis(fresh.Ctx, c.App.RnsKeeper, *gs)
+			sum, lapsed := sdk.NewCoins(), false
+			for _, b := range c.App.RnsKeeper.GetAllBids(fresh.Ctx) {
+				coins, err := sdk.ParseCoinsNormalized(b.Price)
+				if err == nil {
+					sum = sum.Add(coins...)
+				}
+			}
+			names := w.names()
+			for slot := range w.openBids() {
+				for k, n := range names {
+					if strings.HasSuffix(slot, k) && n.Expires < w.f.Height() {
+						lapsed = true
+					}
+				}
+			}
+			if lapsed {
+				rec.Count("exported-with-an-open-bid-on-a-lapsed-name")
+			}
+			if bal := w.moduleBalance(); !coinsEq(sum, bal) {
+				w.logf("export the name-service genesis at height %d and import it into a fresh store", w.f.Height())
+				failf(rt, rec, "C09/genesis-roundtrip-vs-open-bids", w.trace, "after an export/import of the name-service genesis the open bids sum to %q, the module account (carried over by the bank module) holds %q", sum.String(), bal.String())
+			}
+		}
 		if w.rebid {
 			rec.Count("rebid-on-existing-slot")
 		}
